@@ -1074,3 +1074,111 @@ def rule_weighted_fidelity(ctx: Ctx) -> None:
                      construct="Infidelity.evaluate: branch overlap not squared")
     if n == 0:
         raise AnalysisError("Infidelity.evaluate: no per-branch stabilizer fidelity found")
+
+
+# --------------------------------------------------------------------------- noise.pauli-tags
+
+
+def rule_pauli_tags(ctx: Ctx) -> None:
+    """noise.pauli-tags: PauliError("K").apply applies the Pauli K — in every backend branch.  The tag is a string with five relevant values
+    (X, Y, Z, I, anything else); for each backend branch and each value the tests on the tag are folded with the tag bound to that
+    value and the statement that is reached is resolved to an element of the Clifford model: a density-matrix gate function
+    (matrix folded), a gate tag handed to apply_circuit, or an apply_sigma* method (the transform.* function it calls).  The element
+    must be K; any other tag must raise."""
+    from .. import clifford as cl
+    from . import gatesum
+    repo = ctx.repo
+    m = repo.module(NM)
+    fn = repo.anchor(NM, "PauliError.apply")
+    ctx.touch(m, fn)
+    tagv = next((norm(a.targets[0]) for a in fn.body if isinstance(a, ast.Assign) and isinstance(a.value, ast.Subscript)
+                 and isinstance(a.value.slice, ast.Constant) and a.value.slice.value == "Pauli error"), None)
+    if tagv is None:
+        raise AnalysisError("PauliError.apply: the tag variable was not found")
+    subj, chain = _apply_chain(repo, m, fn)
+    want = {"X": cl.X, "Y": cl.Y, "Z": cl.Z, "I": cl.I2}
+    n = 0
+
+    class _R(Exception):
+        pass
+
+    def truth(e, tag):
+        if isinstance(e, ast.Compare) and len(e.ops) == 1:
+            l, r = e.left, e.comparators[0]
+            if isinstance(l, ast.Constant) and isinstance(r, ast.Name):
+                l, r = r, l
+            if isinstance(l, ast.Name) and l.id == tagv:
+                if isinstance(r, ast.Constant) and isinstance(e.ops[0], (ast.Eq, ast.NotEq, ast.Is, ast.IsNot)):
+                    v = (tag == r.value)
+                    return v if isinstance(e.ops[0], (ast.Eq, ast.Is)) else not v
+                if isinstance(r, (ast.Tuple, ast.List, ast.Set)) and isinstance(e.ops[0], (ast.In, ast.NotIn)):
+                    v = tag in [x.value for x in r.elts if isinstance(x, ast.Constant)]
+                    return v if isinstance(e.ops[0], ast.In) else not v
+        if isinstance(e, ast.UnaryOp) and isinstance(e.op, ast.Not):
+            return not truth(e.operand, tag)
+        if isinstance(e, ast.BoolOp):
+            vs = [truth(v, tag) for v in e.values]
+            return all(vs) if isinstance(e.op, ast.And) else any(vs)
+        raise AnalysisError(f"PauliError.apply: test `{short(e)}` is not a test on the tag")
+
+    def reached(stmts, tag):
+        out = []
+        for st in stmts:
+            if isinstance(st, ast.If) and any(isinstance(x, ast.Name) and x.id == tagv for x in ast.walk(st.test)):
+                out += reached(st.body if truth(st.test, tag) else st.orelse, tag)
+            elif isinstance(st, ast.Raise):
+                raise _R()
+            else:
+                out.append(st)
+        return out
+
+    def element(stmts):
+        """the single Clifford element the reached statements apply (identity if none)"""
+        els = []
+        for st in stmts:
+            for c in [x for x in ast.walk(st) if isinstance(x, ast.Call)]:
+                cn = call_name(c) or ""
+                a = call_attr(c)
+                if cn.endswith("get_one_qubit_gate") and len(c.args) == 3:
+                    els.append(gatesum.dm_matrix_of(repo, c.args[2], m))
+                elif a == "append" and c.args and isinstance(c.args[0], ast.Tuple) and c.args[0].elts and isinstance(c.args[0].elts[0], ast.Constant):
+                    g = cl.GATE1.get(c.args[0].elts[0].value)
+                    if g is None:
+                        raise AnalysisError(f"PauliError.apply: unknown gate tag {c.args[0].elts[0].value!r}")
+                    els.append(g)
+                elif a and a.startswith("apply_sigma") or a in ("apply_hadamard", "apply_phase"):
+                    tname = gatesum.stab_method_element(repo, "MixedStabilizer", a)[0]
+                    els.append(gatesum.summarise(repo, tname)[1])
+        if len(els) > 1:
+            raise AnalysisError("PauliError.apply: more than one gate applied for one tag")
+        return els[0] if els else cl.I2
+    for b in chain:
+        if _raises_only(b.body) or b.test is None:
+            continue
+        for tag in ("X", "Y", "Z", "I", "?"):
+            n += 1
+            try:
+                sts = reached(b.body, tag)
+            except _R:
+                if tag == "?":
+                    ctx.ok("noise.pauli-tags", m, b.node, what=f"{short(b.test, 40)}: unknown tag raises")
+                else:
+                    ctx.fail("noise.pauli-tags", m, b.node, f"PauliError('{tag}') raises in the branch `{short(b.test, 50)}`", func="PauliError.apply",
+                             construct=f"PauliError[{short(b.test, 30)}]: tag {tag} raises")
+                continue
+            if tag == "?":
+                ctx.fail("noise.pauli-tags", m, b.node, f"an unknown Pauli tag is silently accepted in the branch `{short(b.test, 50)}`", func="PauliError.apply",
+                         construct=f"PauliError[{short(b.test, 30)}]: unknown tag accepted")
+                continue
+            try:
+                el = element(sts)
+            except (ValueError, KeyError, gatesum.Unsummarisable) as e:
+                raise AnalysisError(f"PauliError.apply: cannot resolve the gate applied for tag {tag}: {e}")
+            if cl.key(el) == cl.key(want[tag]):
+                ctx.ok("noise.pauli-tags", m, b.node, what=f"{short(b.test, 40)}: '{tag}' applies {tag}")
+            else:
+                got = {cl.key(v): k for k, v in want.items()}.get(cl.key(el), "another gate")
+                ctx.fail("noise.pauli-tags", m, b.node, f"PauliError('{tag}') applies {got} in the branch `{short(b.test, 50)}`", func="PauliError.apply",
+                         construct=f"PauliError[{short(b.test, 30)}]: tag {tag} applies {got}")
+    if n < 10:
+        raise AnalysisError("noise.pauli-tags: backend branches of PauliError.apply not found")
